@@ -33,6 +33,7 @@ type Hist struct {
 	Nodes   int `json:"nodes"`  // shared nodes
 	PW      int `json:"pw"`     // percentage of writes
 	Jitter  int `json:"jitter"` // max random pause between operations, microseconds
+	Kind    int `json:"kind"`   // built-in type the numbers travel as (index into g2kit.Kinds)
 	Salt    int `json:"salt"`
 }
 
@@ -146,7 +147,7 @@ func classify(h Hist, evs []Event) (string, bool, map[string]int) {
 		}
 		return "100+"
 	}
-	class := fmt.Sprintf("clients%d/nodes%d/pw%d/jitter%v/conc%d/conflicts%s", h.Clients, h.Nodes, h.PW, h.Jitter > 0, maxc, bucket(conflicts))
+	class := fmt.Sprintf("clients%d/nodes%d/pw%d/jitter%v/%s/conc%d/conflicts%s", h.Clients, h.Nodes, h.PW, h.Jitter > 0, g2kit.Kinds[h.Kind%len(g2kit.Kinds)], maxc, bucket(conflicts))
 	return class, conflicts > 0, map[string]int{"ops": len(ops), "conflicting_overlaps": conflicts, "max_concurrency": maxc}
 }
 
@@ -196,16 +197,19 @@ func child() {
 }
 
 func one(srv *g2kit.Srv, clients []*opcua.Client, h Hist) line {
-	// bring every node back to the initial value 0 (sequentially, not part of the history)
+	// every history starts with sequential writes of number 0 (in the history's variant kind) to
+	// every node by client c1; they are ordinary events of the history
+	var seq atomic.Int64
+	var pre []Event
 	for i := 0; i < h.Nodes; i++ {
-		if err := g2kit.WriteInt(clients[0], srv.Nodes[i], 0, opTimeout); err != nil {
+		t := seq.Add(1)
+		if err := g2kit.WriteKind(clients[0], srv.Nodes[i], 0, h.Kind, opTimeout); err != nil {
 			return line{ID: h.ID, Err: "reset write: " + err.Error()}
 		}
-		if v, err := g2kit.ReadInt(clients[0], srv.Nodes[i], opTimeout); err != nil || v != 0 {
-			return line{ID: h.ID, Err: fmt.Sprintf("reset read: %v %v", v, err)}
-		}
+		t2 := seq.Add(1)
+		v := g2kit.Tagged(0, h.Kind)
+		pre = append(pre, Event{T: t, Ev: "call", C: "c1", Op: "w", N: g2kit.NodeName(i), V: v}, Event{T: t2, Ev: "ret", C: "c1", V: v})
 	}
-	var seq atomic.Int64
 	var wg sync.WaitGroup
 	evs := make([][]Event, h.Clients)
 	start := make(chan struct{})
@@ -225,9 +229,10 @@ func one(srv *g2kit.Srv, clients []*opcua.Client, h Hist) line {
 					time.Sleep(time.Duration(rng.Intn(h.Jitter)) * time.Microsecond)
 				}
 				if write {
-					v := int64(ci+1)*1000000 + int64(k)
+					n := int64(ci+1)*100000 + int64(k)
+					v := g2kit.Tagged(n, h.Kind)
 					t := seq.Add(1)
-					err := g2kit.WriteInt(c, srv.Nodes[ni], v, opTimeout)
+					err := g2kit.WriteKind(c, srv.Nodes[ni], n, h.Kind, opTimeout)
 					t2 := seq.Add(1)
 					my = append(my, Event{T: t, Ev: "call", C: name, Op: "w", N: g2kit.NodeName(ni), V: v})
 					if err != nil {
@@ -237,7 +242,7 @@ func one(srv *g2kit.Srv, clients []*opcua.Client, h Hist) line {
 					my = append(my, Event{T: t2, Ev: "ret", C: name, V: v})
 				} else {
 					t := seq.Add(1)
-					v, err := g2kit.ReadInt(c, srv.Nodes[ni], opTimeout)
+					v, err := g2kit.ReadTagged(c, srv.Nodes[ni], opTimeout)
 					t2 := seq.Add(1)
 					my = append(my, Event{T: t, Ev: "call", C: name, Op: "r", N: g2kit.NodeName(ni)})
 					if err != nil {
@@ -252,7 +257,7 @@ func one(srv *g2kit.Srv, clients []*opcua.Client, h Hist) line {
 	}
 	close(start)
 	wg.Wait()
-	var all []Event
+	all := pre
 	for _, e := range evs {
 		all = append(all, e...)
 	}
